@@ -135,3 +135,43 @@ func H_C13_dir() {
 	}
 	vCover("C13 directory scanned")
 }
+
+// H_C13_links: a shared directory that contains, next to a plain file, a symbolic link to a file whose
+// content length differs from the length of the link's target text (and optionally a dangling link).
+// Whatever the scanner decides to do with links, a listed non-directory entry must have the size of what
+// the sender will read when it opens the resolved path; counts and totals add up; the scan is repeatable.
+func H_C13_links() {
+	base := vTempDir()
+	vTempFile("s/plain", make([]byte, 2))
+	target := vTempFile("elsewhere/target-file-with-a-long-name", make([]byte, 3))
+	vTempSymlink("s/link", target)
+	if vBool("danglingLink") {
+		vTempSymlink("s/zdangling", base+"/elsewhere/nothing-here")
+	}
+	paths := []string{base + "/s"}
+	m, err := manifest.ScanPaths(paths)
+	if err != nil {
+		vCover("C13 links: scan refuses")
+		return
+	}
+	resolve, rerr := buildPathResolver(paths)
+	vAssert(rerr == nil, "the resolver can be built for the same paths")
+	files, folders := 0, 0
+	total := int64(0)
+	for i := range m.Items {
+		it := m.Items[i]
+		if it.IsDir {
+			folders++
+			continue
+		}
+		files++
+		total += it.Size
+		st, serr := os.Stat(resolve(it.RelPath))
+		vAssert(serr == nil && !st.IsDir(), "every listed file can be opened by the sender")
+		vAssert(serr == nil && st.Size() == it.Size, "a listed entry has the size of the content the sender will read")
+	}
+	vAssert(m.FileCount == files && m.FolderCount == folders && m.TotalBytes == total, "counts and totals add up")
+	m2, err2 := manifest.ScanPaths(paths)
+	vAssert(err2 == nil && len(m2.Items) == len(m.Items), "scanning again lists the same entries")
+	vCover("C13 links scanned")
+}
